@@ -242,6 +242,7 @@ func H_C19_typed(v *V) {
 	var data interface{}
 	want := ErrUnknown
 	wantOK := false
+	c19R1, c19R2 := "", ""
 	switch class {
 	case 0: // short name longer than one character
 		S := v.String(v.Shape("lv"))
@@ -277,16 +278,16 @@ func H_C19_typed(v *V) {
 		wantOK = true
 	case 6: // legal: two options with different short and long names
 		R1, R2 := v.String(v.Shape("lv")), v.String(1)
+		c19R1, c19R2 = R1, R2
 		v.Assume(refOneRune(R1) && R1 != "\x00" && refOneRune(R2) && R2 != "\x00" && R1 != R2)
 		data = vTagged(v, "ss", []string{"short:" + refQuote(R1) + " long:" + refQuote("l"+R1), "short:" + refQuote(R2) + " long:" + refQuote("l"+R2)})
 		wantOK = true
 	}
 	var err error
+	p := NewNamedParser("prog", None)
 	if viaParse {
-		p := NewNamedParser("prog", None)
 		_, err = p.AddGroup("G", "", data)
 	} else {
-		p := NewNamedParser("prog", None)
 		g, e := p.AddGroup("Outer", "", &struct{}{})
 		if e != nil {
 			v.Assume(false)
@@ -297,6 +298,17 @@ func H_C19_typed(v *V) {
 	v.Reach("checked")
 	if wantOK {
 		v.Assert(err == nil, "a legal declaration (distinct short names, distinct long names) is accepted")
+		if err == nil && class == 6 {
+			g := p.Groups()[len(p.Groups())-1]
+			for len(g.Groups()) > 0 {
+				g = g.Groups()[0]
+			}
+			opts := g.Options()
+			v.Assert(len(opts) == 2, "both fields become options")
+			if len(opts) == 2 {
+				v.Assert(v.EqStr(string(opts[0].ShortName), c19R1) && v.EqStr(string(opts[1].ShortName), c19R2), "one-character short names of any script are read faithfully")
+			}
+		}
 		return
 	}
 	t, typed := vErrType(err)
